@@ -1558,7 +1558,9 @@ impl CoreRuntime {
         }
         self.state.set_call_sub_level(self.metadata.call_sub_level);
         for (name, value) in self.metadata.temps.iter() {
-            if let Some(idx_str) = name.strip_prefix("TEMP") {
+            // Rust writes "TEMP6", the Python emulator writes the bare index "6".
+            let idx_str = name.strip_prefix("TEMP").unwrap_or(name.as_str());
+            {
                 if let Ok(idx) = idx_str.parse::<u8>() {
                     self.state.set_reg(
                         RegName::Temp(idx),
